@@ -411,6 +411,9 @@ func cmdDeterminism(id string, nseeds int, seed int64) int {
 // raceRelevant: a report counts for the property only if one of its stacks is
 // in the capture code of processFrame or in a metadata / fingerprint reader.
 func raceRelevant(id, rep string) bool {
+	if id == "C18" {
+		return strings.Contains(rep, "pkg/http2/hpack.")
+	}
 	for _, k := range []string{"pkg/metadata.", "pkg/fingerprint.", "(*serverConn).processFrame"} {
 		if strings.Contains(rep, k) {
 			return true
@@ -549,13 +552,17 @@ func makeOverlay(goroot string) string {
 		}
 		return string(b)
 	}
-	sel, rnd := read("runtime/select.go"), read("runtime/rand.go")
+	sel, rnd, tim := read("runtime/select.go"), read("runtime/rand.go"), read("runtime/time.go")
 	const selOld = "j := cheaprandn(uint32(norder + 1))"
 	const initOld = "\tglobalRand.state.Init(*seed)\n"
 	const randOld = "func rand() uint64 {\n"
-	if strings.Count(sel, selOld) != 1 || strings.Count(rnd, initOld) != 1 || strings.Count(rnd, randOld) != 1 {
+	// timers of a bubble that expire at the same instant are ordered by a per-timer random
+	// value, deliberately (go1.25+); it comes from the seeded stream too
+	const timOld = "\t\t\tt.rand = cheaprand()\n"
+	if strings.Count(sel, selOld) != 1 || strings.Count(rnd, initOld) != 1 || strings.Count(rnd, randOld) != 1 || strings.Count(tim, timOld) != 1 {
 		return ""
 	}
+	tim = strings.Replace(tim, timOld, "\t\t\tt.rand = verifTimerRand()\n", 1)
 	sel = strings.Replace(sel, selOld, "j := verifSelectRandn(uint32(norder + 1))", 1)
 	rnd = strings.Replace(rnd, initOld, "\tfor i := range seed {\n\t\tseed[i] = byte(i*37 + 11)\n\t}\n"+initOld, 1)
 	rnd = strings.Replace(rnd, randOld, randOld+"\tif verifDet != 0 {\n\t\tif gp := getg(); gp != nil && gp.bubble != nil {\n\t\t\treturn verifNext()\n\t\t}\n\t}\n", 1)
@@ -580,6 +587,16 @@ func verifNext() uint64 {
 }
 
 //go:nosplit
+func verifTimerRand() uint32 {
+	if verifDet != 0 {
+		if gp := getg(); gp != nil && gp.bubble != nil {
+			return uint32(verifNext() >> 32)
+		}
+	}
+	return cheaprand()
+}
+
+//go:nosplit
 func verifSelectRandn(n uint32) uint32 {
 	if verifDet != 0 {
 		if gp := getg(); gp != nil && gp.bubble != nil {
@@ -589,14 +606,16 @@ func verifSelectRandn(n uint32) uint32 {
 	return cheaprandn(n)
 }
 `
-	sum := sha256.Sum256([]byte(sel + rnd))
+	sum := sha256.Sum256([]byte(sel + rnd + tim))
 	dir := filepath.Join(scratchRoot(), "overlay-"+hex.EncodeToString(sum[:6]))
 	os.MkdirAll(dir, 0o755)
 	os.WriteFile(filepath.Join(dir, "select.go"), []byte(sel), 0o644)
 	os.WriteFile(filepath.Join(dir, "rand.go"), []byte(rnd), 0o644)
-	ov := fmt.Sprintf(`{"Replace": {%q: %q, %q: %q}}`,
+	os.WriteFile(filepath.Join(dir, "time.go"), []byte(tim), 0o644)
+	ov := fmt.Sprintf(`{"Replace": {%q: %q, %q: %q, %q: %q}}`,
 		filepath.Join(goroot, "src", "runtime/select.go"), filepath.Join(dir, "select.go"),
-		filepath.Join(goroot, "src", "runtime/rand.go"), filepath.Join(dir, "rand.go"))
+		filepath.Join(goroot, "src", "runtime/rand.go"), filepath.Join(dir, "rand.go"),
+		filepath.Join(goroot, "src", "runtime/time.go"), filepath.Join(dir, "time.go"))
 	path := filepath.Join(dir, "overlay.json")
 	os.WriteFile(path, []byte(ov), 0o644)
 	return path
